@@ -23,5 +23,10 @@ CLAIMS = {
         'the statement after the call is proved unreachable, a library assertion is shown to fire (solver witness replayed natively), and no pointer check fails on the path prefix. '
         '(3) The same valid-use harnesses compiled with -DNDEBUG and with -DBOOST_MULTI_ASSERT_DISABLE satisfy the same functional specification, hence give identical observable results in all three configurations.',
    note='Bounds as C01/C02 at D=2 for (1),(3); D=1..3, extents<=3, strides<=4 for (2). (3) is established through the common specification rather than a product program. Same trusted base as C01.'),
+ 'C05': dict(
+   text='Destination = ARBITRARY injective view, source = ARBITRARY view of equal extents over separate storage (own symbolic strides/origin; int and long elements). After every assignment form (view=view, =const view, temporary on the left, =std::move(view), elements()=elements(), '
+        'converting long->int, row-wise iterator copy, fill, swap, 1-D range/iterator/initializer-list, array_ref flat copy) a whole-storage image oracle at a symbolic cell proves: a viewed cell holds exactly the corresponding source element (contents are address-coded, so the value identifies the source cell), '
+        'every other cell is untouched, the source is unchanged, and the destination still has its base and layout (never rebound/resized).',
+   note='Bounds quick: D=1 extents<=3 strides<=4; D=2 extents<=2 strides<=3; thorough: D=2 extents<=3, D=3 extents<=2. Source and destination in separate storages (a sufficient form of "disjoint elements"). element_moved and D=0 are covered in the owning-array harnesses (C04/C08). Same trusted base as C01.'),
  'C16': dict(not_applicable='every clause is about which C++ expressions are well-formed / what type overload resolution yields (is_assignable, is_invocable, copy-constructibility): const-ness is erased before LLVM IR exists, there is no run-time behaviour to execute symbolically; the deciding procedure is the C++ type checker, not an SMT/SAT solver (DESIGN.md C16)'),
 }
